@@ -263,6 +263,10 @@ def ops_job_replay(params, inputs):
     sph = o.vectors_spherical
     if np.abs(sph[..., 2] - np.linalg.norm(V, axis=-1)).max() > 1e-9:
         return False, 'spherical r != vector length'
+    az = np.degrees(np.arctan2(V[..., 1], V[..., 0]))
+    el = np.degrees(np.arcsin(V[..., 2] / np.linalg.norm(V, axis=-1)))
+    if np.abs(sph[..., 0] - az).max() > 1e-9 or np.abs(sph[..., 1] - el).max() > 1e-9:
+        return False, f'spherical angles {sph[..., :2].tolist()} != (degrees(arctan2(y,x)), degrees(arcsin(z/r))) = {np.stack([az, el], -1).tolist()}'
     return True, 'ok'
 
 
